@@ -26,6 +26,12 @@ pub mod spec;
 
 pub const VERIF_ROOT: &str = "/verif";
 
+/// Where evidence and replay files go: `$VERIF_OUT` (used when a check is pointed at a scratch
+/// tree, see tools/check_tree.sh) or /verif.
+pub fn out_root() -> String {
+    std::env::var("VERIF_OUT").unwrap_or_else(|_| VERIF_ROOT.to_owned())
+}
+
 #[derive(Clone, Copy, Debug, PartialEq, Eq)]
 pub enum Tier {
     Quick,
@@ -421,7 +427,7 @@ impl Report {
         }
         let mut replay_paths = vec![];
         for (sig, v) in &new_violations {
-            let dir = format!("{VERIF_ROOT}/replays/{}", self.id);
+            let dir = format!("{}/replays/{}", out_root(), self.id);
             let _ = fs::create_dir_all(&dir);
             let mut h = std::collections::hash_map::DefaultHasher::new();
             sig.hash(&mut h);
@@ -493,7 +499,7 @@ impl Report {
             "wall_s": wall,
             "violations": new_violations.len(),
         });
-        let evdir = format!("{VERIF_ROOT}/evidence");
+        let evdir = format!("{}/evidence", out_root());
         let _ = fs::create_dir_all(&evdir);
         let evpath = format!("{evdir}/{}.json", self.id);
         if let Err(e) = fs::write(&evpath, serde_json::to_string_pretty(&ev).unwrap() + "\n") {
